@@ -1,7 +1,15 @@
 """worker for common.parallel_map: python worker.py <module> <func> <in.json> <out.json>"""
 import importlib
 import json
+import os
 import sys
+
+# every worker process gets its own parso/jedi pickle cache below the run's private cache home:
+# cold processes racing on one cache directory corrupt it (parso writes the pickles non-atomically
+# and tolerates only a missing file)
+if os.environ.get('XDG_CACHE_HOME'):
+    os.environ['XDG_CACHE_HOME'] = os.path.join(os.environ['XDG_CACHE_HOME'], 'worker-%d' % os.getpid())
+    os.makedirs(os.environ['XDG_CACHE_HOME'], exist_ok=True)
 
 if __name__ == '__main__':
     module, func, inp, outp = sys.argv[1:5]
